@@ -680,6 +680,18 @@ Proof.
   rewrite rd_exact_spec. destruct (Nat.ltb_spec (length bs) (N.to_nat n)) as [_|H2]; [reflexivity|lia].
 Qed.
 
+(* a read of a file-controlled length, bounded by what can remain: with at most rem bytes left, reading
+   min len (S rem) bytes has the outcome (value and rest) of reading len bytes; no huge unary number arises *)
+Lemma rd_exact_bounded len rem bs :
+  length bs <= rem -> rd_exact (N.to_nat (N.min len (N.of_nat (S rem)))) bs = rd_exact_N len bs.
+Proof.
+  intro Hrem. rewrite rd_exact_N_eq, !rd_exact_spec.
+  destruct (N.le_gt_cases len (N.of_nat rem)) as [Hle|Hgt].
+  - replace (N.min len (N.of_nat (S rem))) with len by lia. reflexivity.
+  - destruct (Nat.ltb_spec (length bs) (N.to_nat (N.min len (N.of_nat (S rem))))) as [_|H1]; [|lia].
+    destruct (Nat.ltb_spec (length bs) (N.to_nat len)) as [_|H2]; [reflexivity|lia].
+Qed.
+
 Theorem run_flat_slp_read hash bs0 :
   run_flat (p_slp_read hash (length bs0)) bs0 = slp_read {| o_skip := false; o_hash := hash |} bs0.
 Proof.
@@ -698,8 +710,8 @@ Proof.
   rewrite (run_flat_pbc _ _ (length bs0)) by lia.
   match goal with |- match ?X with _ => _ end = bind ?Y _ => assert (E4 : X = Y) end.
   { destruct (ps_bytes_read s4 <? raw_len)%N; [|reflexivity].
-    rewrite run_flat_pb. unfold pbind. rewrite run_flat_exact, rd_exact_N_eq.
-    destruct (rd_exact (N.to_nat (raw_len - ps_bytes_read s4)) bs3) as [[buf bs4]|e|x|]; cbn [bind]; try reflexivity.
+    rewrite run_flat_pb. unfold pbind. rewrite run_flat_exact, rd_exact_bounded by lia.
+    destruct (rd_exact_N (raw_len - ps_bytes_read s4) bs3) as [[buf bs4]|e|x|]; cbn [bind]; try reflexivity.
     destruct (N.eqb (raw_len - ps_bytes_read s4) (1 + game_End_size (ver s4)) &&
               N.eqb (b2n (hd x00 buf)) Event_GameEnd); reflexivity. }
   match type of E4 with ?X = ?Y => destruct Y as [[s5 bs5]|e|x|] eqn:E5 end;
